@@ -54,6 +54,15 @@ type Fault struct {
 	Body   []byte
 	At     int
 	Mutate func(resp []byte) []byte
+	// Err replaces the connection error of ErrBefore / ErrAfter (e.g. context.Canceled)
+	Err error
+}
+
+func (f *Fault) connErr() error {
+	if f.Err != nil {
+		return f.Err
+	}
+	return ErrConn
 }
 
 type Handler func(m *Message) (status int, body []byte)
@@ -162,7 +171,7 @@ func (n *Net) deliver(m *Message) {
 	}
 	if f != nil && f.Kind == "ErrBefore" {
 		n.fire("transport.error-before-service")
-		n.queueReply(m, &reply{err: ErrConn, readErrAt: -1})
+		n.queueReply(m, &reply{err: f.connErr(), readErrAt: -1})
 		return
 	}
 	h := n.Handlers[m.URL]
@@ -181,7 +190,7 @@ func (n *Net) deliver(m *Message) {
 		switch f.Kind {
 		case "ErrAfter":
 			n.fire("transport.error-after-service")
-			r = &reply{err: ErrConn, readErrAt: -1}
+			r = &reply{err: f.connErr(), readErrAt: -1}
 		case "Status":
 			n.fire(fmt.Sprintf("transport.status-%d", f.Status))
 			r.status, r.body = f.Status, f.Body
@@ -221,4 +230,4 @@ func (n *Net) queueReply(m *Message, r *reply) {
 }
 
 func (m *Message) done() bool { return m.answered }
-func (m *Message) markDone() { m.answered = true }
+func (m *Message) markDone()  { m.answered = true }
